@@ -16,7 +16,8 @@ for its method (405) before it looks at `Accept`. -/
 theorem gate_status_codes :
     Why.status false .ctype = 415 ∧ Why.status true .ctype = 415 ∧ Why.status false .accept = 400 ∧
     Why.status true .accept = 400 ∧ Why.status false .getAccept = 400 ∧ Why.status true .getAccept = 405 ∧
-    Why.status false .noServer = 400 ∧ Why.status true .noServer = 400 := by decide
+    Why.status false .noServer = 400 ∧ Why.status true .noServer = 400 ∧
+    (∀ b, Why.status b .origin = 403) ∧ (∀ b, Why.status b .host = 403) := by decide
 
 theorem status_refused (w : Why) (b : Bool) : (St.code (w.status b)).refused4xx = true := by
   cases w <;> cases b <;> decide
